@@ -104,8 +104,44 @@ pub fn check_in_process(bytes: &[u8], st: &mut Stats) -> Result<String, Fail> {
     if layout::required_len(&h) != a.len() {
         return Err(Fail::new("length-law", format!("output length {} != length implied by its own header {} ({h:?})", a.len(), layout::required_len(&h))));
     }
-    // 8 concurrently running threads
     let d = digest(&a);
+    // the output is a function of the mapping bytes, not of where they live: same bytes at 8 different alignments
+    let mut shifted = vec![0u8; bytes.len() + 8];
+    for off in 1..8usize {
+        shifted[off..off + bytes.len()].copy_from_slice(bytes);
+        let w = write_once(&shifted[off..off + bytes.len()]).map_err(|e| Fail::new("write-error", e))?;
+        st.evaluations += 1;
+        if w != a {
+            return Err(Fail::new("alignment-dependent", format!("the same mapping bytes at buffer offset {off} (address mod 8 differs) serialise differently ({} vs {} bytes)", w.len(), a.len())));
+        }
+    }
+    // ... nor of the call history of this thread: failed and short writes in between must leave no trace
+    struct Limited(usize, usize);
+    impl std::io::Write for Limited {
+        fn write(&mut self, buf: &[u8]) -> std::io::Result<usize> {
+            if self.1 + buf.len() > self.0 {
+                return Err(std::io::Error::new(std::io::ErrorKind::Other, "sink full"));
+            }
+            self.1 += buf.len();
+            Ok(buf.len())
+        }
+        fn flush(&mut self) -> std::io::Result<()> {
+            Ok(())
+        }
+    }
+    for limit in [0usize, 23, 24, 25, 60, a.len() / 2, a.len().saturating_sub(1)] {
+        let _ = guarded(|| {
+            let m = proguard::ProguardMapping::new(bytes);
+            let mut sink = Limited(limit, 0);
+            let _ = proguard::ProguardCache::write(&m, &mut sink);
+        });
+        let again = write_once(bytes).map_err(|e| Fail::new("write-error", e))?;
+        st.evaluations += 1;
+        if again != a {
+            return Err(Fail::new("history-dependent", format!("after a write into a sink that fails after {limit} bytes, the next write of the same mapping differs ({} vs {} bytes)", again.len(), a.len())));
+        }
+    }
+    // 8 concurrently running threads
     let results: Vec<Result<String, String>> = std::thread::scope(|sc| {
         let hs: Vec<_> = (0..8).map(|_| sc.spawn(|| write_once(bytes).map(|v| digest(&v)))).collect();
         hs.into_iter().map(|h| h.join().unwrap_or_else(|_| Err("thread panicked".into()))).collect()
@@ -154,9 +190,16 @@ fn classify(case: &MapCase, st: &mut Stats) -> bool {
 
 pub fn run(ctx: &Ctx) -> Report {
     let mut rep = Report::new(ID, "exploration", ctx);
-    rep.rule = format!("Cases: grammar-generated mappings (up to 12 class blocks) and corpus files. Each mapping is written twice in the parent (two fresh writer invocations => differently seeded HashSet/HashMap instances), from 8 concurrently running threads, and by {CHILDREN} separately started child processes (fresh hash seeds, different allocation addresses) that return digests (two 64-bit hashes + length). Oracle: all digests identical; output length == length implied by its own header. evaluations = write invocations compared. Non-trivial = distinct mappings with >=2 classes, >=3 distinct strings and >=1 by-params group of >=2 entries (so hash-ordered emission would have something to permute).");
+    rep.rule = format!("Cases: grammar-generated mappings (up to 12 class blocks) and corpus files. Each mapping is written twice in the parent (two fresh writer invocations => differently seeded HashSet/HashMap instances), from 8 concurrently running threads, at 8 different buffer alignments, again after failed / truncated writes on the same thread, and by {CHILDREN} separately started child processes (fresh hash seeds, different allocation addresses) that return digests (two 64-bit hashes + length). Oracle: all digests identical; output length == length implied by its own header. evaluations = write invocations compared. Non-trivial = distinct mappings with >=2 classes, >=3 distinct strings and >=1 by-params group of >=2 entries (so hash-ordered emission would have something to permute).");
     rep.assumptions = vec!["one platform (x86_64 Linux); endianness / pointer-width dependent ordering is out of reach".into()];
     let collected: Mutex<Vec<(Vec<u8>, String)>> = Mutex::new(Vec::new());
+    rep.run_stage("tall", || tall_case(&cfg()), ctx.cases(40, 1_500), |case: &MapCase, st: &mut Stats| {
+        st.class("tall mapping (hundreds of entries per class)");
+        if classify(case, st) {
+            st.nontrivial(case.hash());
+        }
+        check_in_process(&case.bytes(), st).map(|_| ())
+    });
     let n = ctx.cases(2500, 120_000);
     rep.run_stage("ast", || map_case(&cfg()), n, |case: &MapCase, st: &mut Stats| {
         let bytes = case.bytes();
